@@ -126,7 +126,11 @@ class Inst:
     """traced instance"""
 
     def __init__(self, spec, cfg, seed=0, poly=False, extra_named=None, solver=True, built=None,
-                 extra_outputs=None):
+                 extra_outputs=None, like=None, bind=None, named=True):
+        """like/bind: relational use.  `like` = another Inst whose pool/UFs/points are shared;
+        bind(self.nlp, like) -> dict domain -> (flat x values, flat p values) expressed in `like`'s variables."""
+        self.like, self.bind = like, bind
+        self.want_named = named
         self.spec, self.cfg, self.poly = spec, cfg, poly
         self.rng = random.Random(seed)
         t0 = time.time()
@@ -161,21 +165,32 @@ class Inst:
         t0 = time.time()
         self.prog = SXProgram(nlp.xsyms + nlp.psyms, outs)
         self.prog.selfcheck(self.rng)
-        self.pool = ConstPool()
         import z3
         self.z3 = z3
-        self.zdom = Z3Domain(self.pool, poly=self.poly)
-        self.rdom = RefZ3Domain(self.zdom)
-        self.xv = [z3.Real('x%d' % i) for i in range(nlp.nx)]
-        self.pv = [z3.Real('p%d' % i) for i in range(nlp.np)]
-        self.zout = self.prog.run(self.zdom, nlp.split(self.xv, nlp.xsyms) + nlp.split(self.pv, nlp.psyms))
+        like = self.like
+        if like is None:
+            self.pool = ConstPool()
+            self.zdom = Z3Domain(self.pool, poly=self.poly)
+            self.rdom = RefZ3Domain(self.zdom)
+        else:
+            self.pool, self.zdom, self.rdom = like.pool, like.zdom, like.rdom
         self.fdom = PolyFloatDomain() if self.poly else FloatDomain()
-        self.pts = []
+        if self.bind is None:
+            self.xv = [z3.Real('x%d' % i) for i in range(nlp.nx)]
+            self.pv = [z3.Real('p%d' % i) for i in range(nlp.np)]
+            self.pts = []
+            for _ in range(NPTS):
+                self.pts.append(([self.rng.uniform(0.15, 0.6) * self.rng.choice([1, 1, 1, -1]) for _ in range(nlp.nx)],
+                                 [self.rng.uniform(0.3, 0.9) for _ in range(nlp.np)]))
+        else:
+            bound = self.bind(nlp, like)
+            self.xv, self.pv = list(bound['z'][0]), list(bound['z'][1])
+            self.pts = [(list(bound[d][0]), list(bound[d][1])) for d in range(NPTS)]
+            if len(self.xv) != nlp.nx or len(self.pv) != nlp.np:
+                raise HarnessError('binding does not cover the variables of the second transcription (%d/%d x, %d/%d p)' % (len(self.xv), nlp.nx, len(self.pv), nlp.np))
+        self.zout = self.prog.run(self.zdom, nlp.split(self.xv, nlp.xsyms) + nlp.split(self.pv, nlp.psyms))
         self.fout = []
-        for _ in range(NPTS):
-            pt = ([self.rng.uniform(0.4, 1.6) * self.rng.choice([1, 1, 1, -1]) for _ in range(nlp.nx)],
-                  [self.rng.uniform(0.4, 1.6) for _ in range(nlp.np)])
-            self.pts.append(pt)
+        for pt in self.pts:
             self.fout.append(self.prog.run(self.fdom, nlp.split(pt[0], nlp.xsyms) + nlp.split(pt[1], nlp.psyms)))
         self.t_trace = time.time() - t0
 
